@@ -89,6 +89,14 @@ def EV.token (e : EV) : String :=
   if e.close then (if e.run == .errOther || e.run == .nil then "closeerr" else runName e.run ++ "+closeerr")
   else runName e.run
 
+/-! ## NewProvider's source switch (components/providers/http/provider.go) -/
+
+/-- which configurations `NewProvider` accepts as an ammo source: inline `uris` (`nUris` = len(conf.Uris) > 0) only for
+the uri decoder and not together with a file; otherwise a file, which must be named.  Preload is not asked: a source is
+accepted or rejected alike in both modes (regenerated guards: `Bridge.C14.source_guards_source`). -/
+def sourceAccepted (k : Fmt) (nUris : Nat) (hasFile : Bool) : Bool :=
+  if nUris > 0 then k == .uri && !hasFile else hasFile
+
 /-! ## the variant with the sentinel mapping after the combination (refuted) -/
 
 namespace Late
